@@ -192,7 +192,12 @@ func (fs *filterFS) Walk(ctx context.Context, target string, fn gofs.WalkDirFunc
 	return fs.fs.Walk(ctx, target, func(path string, dirEntry gofs.DirEntry, walkErr error) (retErr error) {
 		defer func() {
 			if retErr != nil && isNotExist(retErr) {
-				retErr = filepath.SkipDir
+				// the entry vanished: skip it. SkipDir for a non-directory
+				// would skip the rest of the containing directory as well.
+				retErr = nil
+				if dirEntry != nil && dirEntry.IsDir() {
+					retErr = filepath.SkipDir
+				}
 			}
 		}()
 
